@@ -138,6 +138,24 @@ func (q *queryable) Iterate(ctx context.Context, onFields core.OnFields, onRow c
 			}
 		}
 		i++
+		// Only report the periods inside the table's window (asOf, until]. Plans
+		// that don't group the rows don't apply the window anywhere else, and
+		// periods that have expired stay in storage until they get truncated by
+		// a later flush.
+		hasData := false
+		for f, val := range vals {
+			if len(val) == 0 {
+				continue
+			}
+			val = val.Truncate(q.fields[f].Expr.EncodedWidth(), q.t.Resolution, q.asOf, q.until)
+			vals[f] = val
+			if len(val) > 0 {
+				hasData = true
+			}
+		}
+		if !hasData {
+			return true, nil
+		}
 		return onRow(key, vals)
 	})
 	if err != nil {
